@@ -646,16 +646,17 @@ def _assume_monotone(C, n):
     c.assume(Forall(lambda i: Implies(And(I(i) >= 0, I(i) <= I(n)), C(i) <= C(I(n))), triggers=[C], name="L3 prefix <= total"))
 
 
-def prefix_monotone(C, fa, n, oid="prefix.nonneg"):
+def prefix_monotone(C, fa, n, oid="prefix.nonneg", pairs=True):
     """Premise (obligation): every summand fa(k) >= 0 on [0, n).  Conclusion (engine lemmas L1, L3+L2, proved
-    schematically in pyvc/lemmas.py): C >= 0 and C monotone on [0, n]."""
+    schematically in pyvc/lemmas.py): C >= 0 and C monotone on [0, n].  pairs=False: only C >= 0 and C <= total (cheaper to instantiate)."""
     from .core import PairForall
     c = ctx()
     use("engine lemma: prefix sums of non-negative terms are non-negative and monotone (pyvc/lemmas.py L1-L3)")
     c.oblige("%s:%s" % (c.fname, oid), Forall(lambda k: Implies(in_range(k, n), I(fa(k)) >= 0)), "lemma-premise",
              None, "summands are non-negative (premise of the prefix-sum monotonicity lemma)")
     c.assume(Forall(lambda i: Implies(And(I(i) >= 0, I(i) <= I(n)), C(i) >= 0), triggers=[C], name="L1 prefix >= 0"))
-    c.assume(PairForall(C, lambda a, b: Implies(And(a >= 0, a <= b, b <= I(n)), C(a) <= C(b)), name="L3 prefix monotone"))
+    if pairs:
+        c.assume(PairForall(C, lambda a, b: Implies(And(a >= 0, a <= b, b <= I(n)), C(a) <= C(b)), name="L3 prefix monotone"))
     c.assume(Forall(lambda i: Implies(And(I(i) >= 0, I(i) <= I(n)), C(i) <= C(I(n))), triggers=[C], name="L3 prefix <= total"))
 
 
